@@ -62,6 +62,9 @@ def commit_point_call(ctx: Ctx, f: FunctionInfo) -> Node:
     raise AnalysisError(f"no commit-point call in {f.qname}")
 
 
+_VAL_EXTRA: Dict[str, Tuple[List[Node], List[Node]]] = {}
+
+
 def validation(ctx: Ctx, f: FunctionInfo) -> Tuple[Node, str, str, Dict[str, Node]]:
     """(validation read call, name of the validated variable, name of the base parameter, {field: branch node})."""
     g = ctx.cfg(f)
@@ -104,16 +107,21 @@ def validation(ctx: Ctx, f: FunctionInfo) -> Tuple[Node, str, str, Dict[str, Nod
     b0 = next(iter(fields.values()))
     defs = rd.reaching(b0.id, cur_name)
     reads = []
+    none_defs = 0
     for d in defs:
         dn = g.nodes[d]
-        if isinstance(dn.ast, ast.Assign) and isinstance(dn.ast.value, (ast.Call, ast.IfExp)):
+        if isinstance(dn.ast, (ast.Assign, ast.AnnAssign)) and isinstance(dn.ast.value, ast.Constant) and dn.ast.value.value is None:
+            none_defs += 1  # `current = None` on the no-table branch
+            continue
+        if isinstance(dn.ast, (ast.Assign, ast.AnnAssign)) and isinstance(dn.ast.value, (ast.Call, ast.IfExp)):
             # the defining statement is the validation read, provided its value comes from a metadata read
             org = ctx.slicer(f).origins(dn.ast.value, d)
             if any(isinstance(c, ast.Call) and (dotted(c.func) or "").split(".")[-1] in
                    ("refresh", "_read_metadata_file", "read_json", "_current_version_info") for c in org["calls"]):
                 reads.append(dn)
-    if len(reads) != len(defs) or not reads:
+    if len(reads) + none_defs != len(defs) or not reads:
         raise AnalysisError("validation read (definition of the validated metadata) not found")
+    _VAL_EXTRA[f.qname] = (reads, [g.nodes[d] for d in defs if g.nodes[d] not in reads])
     return reads[0], cur_name, base, fields
 
 
@@ -168,21 +176,41 @@ def r1(ctx: Ctx) -> None:
     newp = next((p.name for p in f.params if "new" in p.name), None)
     if newp is None:
         raise AnalysisError("MetadataManager.commit has no new-metadata parameter")
+    rd = ctx.rd(f)
     cands: List[Tuple[str, Node, bool]] = []
-    for n in g.nodes:
-        if n.kind != "stmt" or not isinstance(n.ast, ast.Assign):
+    good_fields = []
+    # a stamp assignment on the NO-TABLE side of the existence guard needs no advance (nothing to advance past)
+    guard_false_reach: Set[int] = set()
+    for b in g.nodes:
+        if b.kind == "branch" and isinstance(b.ast, ast.Name) and b.ast.id == cur:
+            fl, tr = edge_target(g, b, "false"), edge_target(g, b, "true")
+            if fl is not None:
+                fr_ = reachable_from(g, fl, NORMAL)
+                tr_ = reachable_from(g, tr, NORMAL) if tr is not None else set()
+                guard_false_reach |= {x for x in fr_ if x not in tr_}
+    for fld in fields:
+        defs = rd.reaching(cp.id, f"{newp}.{fld}")
+        if not defs:
             continue
-        for t in n.ast.targets:
-            if isinstance(t, ast.Attribute) and dotted(t.value) == newp and t.attr in fields:
-                adv = _strictly_advances(n.ast.value, {cur, base}, t.attr, ctx, f, n.id)
-                cands.append((t.attr, n, adv and n.id in dom.get(cp.id, set())))
-    good = [c for c in cands if c[2]]
+        ok_all = True
+        for d in defs:
+            n = g.nodes[d]
+            if d == g.entry or not isinstance(n.ast, ast.Assign):
+                ok_all = False
+                continue
+            adv = _strictly_advances(n.ast.value, {cur, base}, fld, ctx, f, n.id)
+            cands.append((fld, n, adv))
+            if not adv and d not in guard_false_reach:
+                ok_all = False
+        if ok_all and g.entry not in defs:
+            good_fields.append(fld)
+    good = good_fields
     anchor = cands[0][1] if cands else cp
-    detail = ("validated fields " + str(sorted(fields)) + "; stamp assignments: "
+    detail = ("validated fields " + str(sorted(fields)) + "; stamp assignments reaching the commit point: "
               + str([(a, norm_text(n.ast)[:90], ok) for a, n, ok in cands]))
     ctx.ob("C01.R1", f, "OCC stamp strictly advances past the validated version", anchor, bool(good),
            "a stale-base commit must always fail validation: " + detail +
-           ("" if good else "; no assignment of a validated field is provably > the validated value "
+           ("" if good else "; no validated field is provably > the validated value on every path "
             "(a clock read can repeat within one tick, so a metadata-only commit leaves every compared field unchanged)"))
 
 
@@ -202,7 +230,8 @@ def r2(ctx: Ctx) -> None:
     wl = [n for n in g.nodes if n.kind == "with_enter" and "_lock" in n.text]
     ctx.ob("C01.R2", f, "thread lock dominates distributed acquire", a, bool(wl) and any(w.id in dom[a.id] for w in wl),
            "`with self._lock` encloses the distributed lock acquisition")
-    ctx.ob("C01.R2", f, "acquire dominates validation read", read, a.id in dom[read.id],
+    all_reads, none_defs = _VAL_EXTRA[f.qname]
+    ctx.ob("C01.R2", f, "acquire dominates validation read", read, all(a.id in dom[r_.id] for r_ in all_reads),
            "the validation refresh() happens while holding the lock")
     # a path may skip a comparison only through the false edge of the `if <current>` existence guard
     guard_false = {(b.id, d) for b in g.nodes if b.kind == "branch" and isinstance(b.ast, ast.Name) and b.ast.id == cur
@@ -216,9 +245,11 @@ def r2(ctx: Ctx) -> None:
         ctx.ob("C01.R2", f, f"comparison of {fld} dominates the commit point", b, b is not None and w is None,
                f"no path from the validation read to the pointer flip avoids comparing {fld} while current metadata "
                f"exists (true-branch raises)", text=fld, witness=ctx.path_witness(f, w))
+    okdefs = {r_.id for r_ in all_reads} | {n_.id for n_ in none_defs}
     for fld, b in fields.items():
-        ctx.ob("C01.R2", f, f"validation read dominates comparison {fld}", b, read.id in dom[b.id],
-               "the compared value is the one read under the lock", text=fld)
+        ds = set(ctx.rd(f).reaching(b.id, cur))
+        ctx.ob("C01.R2", f, f"validation read dominates comparison {fld}", b, bool(ds) and ds <= okdefs and all(a.id in dom[d] for d in ds),
+               "the compared value is the one read under the lock (every reaching definition is the validation read)", text=fld)
     # the `current and ...` guard must not skip validation when metadata exists: the guard variable is `cur`
     rel_fns = {ctx.fn("metadata_manager.MetadataManager._release_lock_safely").qname}
     rel = [n for n in g.calls() if ctx.eff.lock_op(n) == "release" or any(t.qname in rel_fns for t in ctx.eff.callees(f, n))]
